@@ -13,6 +13,7 @@ mod c10;
 mod c11;
 mod c12;
 mod c14;
+mod c15;
 mod c17;
 mod c18;
 mod vbuild;
@@ -31,6 +32,10 @@ fn main() {
     let args: Vec<String> = std::env::args().collect();
     if args.len() < 2 {
         usage();
+    }
+    if args[1] == "--c15-seed" {
+        c15::seed_child();
+        return;
     }
     if args[1] == "--vbuild" {
         vbuild::main(&args[2]);
@@ -91,6 +96,7 @@ fn main() {
             "C11" => c11::run(ctx),
             "C12" => c12::run(ctx),
             "C14" => c14::run(ctx),
+            "C15" => c15::run(ctx),
             "C17" => c17::run(ctx),
             "C18" => c18::run(ctx),
             "C19" => c19::run(ctx),
